@@ -355,6 +355,25 @@ class Crate:
         self.wr(rel, s[:jb + m.start()] + new + s[le:])
         self.log.append(('rewrite', rel, 'R3 x1 (enumerate() -> explicit counter in %s)' % name))
 
+    def ghost_every(self, rel, ctx, name, stmt_text, ghost, nth=0):
+        """place ghost text before every statement (line) of fn that contains stmt_text (e.g. every `Ok(())` exit)"""
+        jb, be = self.body(rel, ctx, name, nth)
+        s = self.rd(rel)
+        sites = []
+        i = jb
+        while True:
+            i = s.find(stmt_text, i + 1, be)
+            if i < 0:
+                break
+            sites.append(i)
+        if not sites:
+            raise AnchorLost('%s: stmt anchor lost in %s: %r' % (rel, name, stmt_text[:60]))
+        for i in reversed(sites):
+            ls = s.rfind('\n', 0, i) + 1
+            s = s[:ls] + ghost.rstrip() + '\n' + s[ls:]
+        self.wr(rel, s)
+        self.log.append(('ghost', rel, '%s @ every %s (%d)' % (name, stmt_text[:30], len(sites))))
+
     def ghost_loop_exits(self, rel, ctx, name, ghost, nth=0):
         """place ghost text before every `return Err(` statement that follows the first loop keyword of fn (however many
         there are: a refactoring that merges or splits the checks keeps its proof, a change that drops one fails elsewhere)"""
